@@ -4,17 +4,68 @@ VERIF = os.path.abspath(os.path.join(os.path.dirname(__file__), '..', '..'))
 
 ALL = ['C%02d' % i for i in range(1, 20)]
 
+PURE_NOTE = ('Trusted: Coq kernel, extraction (ExtrOcamlBasic), OCaml record parser, the Go recorder and its generator. '
+             'The Go standard-library pieces involved are modelled from their source and tied by the differential test.')
+CONC_NOTE = ('Theorems are about the slice model coq/SliceJob.v (one step = one synchronisation operation on the job). The tie to the code is '
+             'checked on every run: the instrumented library is executed under a controlled scheduler and, per job object, the projected event '
+             'sequence must be a trace of the extracted model (any new or reordered operation on the status word / wait group is rejected). '
+             'Trusted: Coq kernel, extraction, the rewriter + shim runtime (sequentially consistent interleavings at synchronisation-operation '
+             'granularity), the projection, the harness. Monitors only search for / confirm concrete failing histories.')
+
 CLAIMED = {
+    'C01': dict(
+        text='Machine-checked: in every schedule the worker function is entered at most once per job, only on a job a dispatcher '
+             'claimed after its queue handed it out, never on a rejected submission and never after a cancel/purge that succeeded '
+             'before the start (inductive invariant of the per-job protocol, all event lists). Lock-step replay of projected traces '
+             'ties the model to the code; the exactly-once / identity / eventually-runs parts are additionally monitored on every '
+             'explored history (11 scenario families, all worker and queue kinds, lifecycle calls, idle expiry).',
+        note=CONC_NOTE + ' "Eventually runs" is C03; per-queue exactly-once hand-out is C04.',
+        technique='Coq inductive invariant over a per-job transition system + lock-step trace validation', ref='5 C01'),
     'C04': dict(
         text='Machine-checked refinement theorems (all inputs, all lengths, all capacity settings): the segmented FIFO refines a '
              'list (enqueue appends, dequeue returns the oldest); the (Priority, Index) binary heap built on container/heap '
              'returns the least pending element with ties broken by acceptance order. The models are tied to the code on every '
              'run by a differential test that replays recorded operation sequences, including segment-boundary crossings and '
              'the heap array layout, on the extracted model.',
-        note='Trusted: Coq kernel, extraction (ExtrOcamlBasic), OCaml record parser, the Go recorder; container/heap modelled '
-             'from the standard library source. System-level part (concurrent producers, dispatcher) is argued from the queue '
-             'mutex making each operation atomic and is validated by the controlled-scheduler order monitor.',
+        note=PURE_NOTE + ' System-level part (concurrent producers, dispatcher) is argued from the queue mutex making each operation atomic '
+             'and is validated by the controlled-scheduler order monitor (family order).',
         technique='Coq refinement proof of pure core + differential test against extracted model', ref='5 C04'),
+    'C05': dict(
+        text='Machine-checked: Wait on a job handle is enabled only once the job is Closed, and a job becomes Closed only after its '
+             'worker function returned or without ever starting (cancelled, purged, rejected); once enabled it stays enabled for '
+             'every caller. Lock-step replay ties the model to the code; early / never returning Wait, Result, Err and batch Wait '
+             'are monitored on every explored history.',
+        note=CONC_NOTE + ' Liveness ("they do return") rests on C03.',
+        technique='Coq inductive invariant over a per-job transition system + lock-step trace validation', ref='5 C05'),
+    'C10': dict(
+        text='Machine-checked: a Close that returns nil before the start makes the job cancelled for good (never executed afterwards); '
+             'at most one Close returns nil, the job is closed by exactly one compare-and-swap claim, its waiters are released at '
+             'most once and the wait group never goes negative; a closed queue rejects with no effect. Lock-step replay ties the '
+             'model to the code; cancel/purge/queue-close races are monitored on every explored history.',
+        note=CONC_NOTE,
+        technique='Coq inductive invariant over a per-job transition system + lock-step trace validation', ref='5 C10'),
+    'C12': dict(
+        text='Machine-checked: every valid-UTF-8 ID survives Go\'s JSON string encoding/decoding (all escape classes, all scalar values); '
+             'the five status strings round-trip and unknown ones are rejected; decode(encode(id, status, payload)) returns the same '
+             'triple under the stated assumption on encoding/json for payloads; unencodable payloads are rejected with no effect. '
+             'The byte-level model is tied to job.Json / parseToJob on every run by a differential test with generated ids, payloads '
+             'and malformed entries.',
+        note=PURE_NOTE + ' Payload fidelity itself is encoding/json\'s (assumed, checked differentially). Isolation of bad entries at system level: family persist.',
+        technique='Coq round-trip proof of the envelope codec + differential test against extracted model', ref='5 C12'),
+    'C15': dict(
+        text='Machine-checked, for every number of queues and every length vector: RoundRobin picks the next non-empty queue in cyclic '
+             'binding order and advances the cursor past it; two queues that stay non-empty differ by at most one dispatch; a non-empty '
+             'queue is served within n selections; MaxLen/MinLen pick the first longest / shortest non-empty queue (MaxLen under 0 <= Len). '
+             'Tied to helpers.Manager by a differential test; the dispatch sequence of a multi-queue worker is compared with a reference '
+             'selector under the controlled scheduler.',
+        note=PURE_NOTE + ' Assumes Len() is stable during one selection and each queue is registered once (the latter was violated: fixed, dd1cc3e).',
+        technique='Coq proofs of selection + fairness on a pure model + differential test', ref='5 C15'),
+    'C16': dict(
+        text='Machine-checked: no step of any thread moves a job\'s status backwards; it is Processing while the worker function runs; '
+             'Wait returns only on a Closed job and Closed is final. Lock-step replay ties the model to the code; status samples '
+             'taken by clients at arbitrary points are checked for monotonicity on every explored history.',
+        note=CONC_NOTE,
+        technique='Coq inductive invariant over a per-job transition system + lock-step trace validation', ref='5 C16'),
 }
 
 NA_REASON = 'check not built yet in this round (work in progress; see DESIGN.md section 9 for the order of work)'
